@@ -133,6 +133,10 @@ pub struct Sc {
     /// names the affiliate in the output, in every process alike.
     #[serde(default)]
     pub e2e_affiliate_spellings: bool,
+    /// End-to-end lane only (the verbose flag is a process-global of the library): run with --verbose,
+    /// whose extra lines are part of standard output.
+    #[serde(default)]
+    pub e2e_verbose: bool,
 }
 
 #[derive(Clone, Debug, Serialize, Deserialize, PartialEq)]
@@ -178,7 +182,9 @@ pub fn generate(seed: u64, k_seeds: usize) -> Sc {
     secs.truncate(n_sec);
     // Securities are case-sensitive strings: names that differ only in case are
     // distinct securities that collide under any case-folding key.
+    let mut case_variants = false;
     if n_sec >= 2 && r.chance(1, 4) {
+        case_variants = true;
         let variants: &[(&str, &[&str])] = &[("FOO", &["Foo", "foo"]), ("BAR", &["Bar", "bar"]), ("XYZ", &["xyz"]), ("VFV.TO", &["vfv.to", "Vfv.To"]), ("QQQ", &["qqq"]), ("ZAG", &["Zag", "zag"])];
         let base = secs[0];
         if let Some((_, vs)) = variants.iter().find(|(b, _)| *b == base) {
@@ -212,7 +218,9 @@ pub fn generate(seed: u64, k_seeds: usize) -> Sc {
         for a in &affs {
             st.insert(a, AfState { shares: 0, last_price: 2000 });
         }
-        if r.chance(1, 6) {
+        // (an opening position for one of several spellings that differ only in case: any
+        // case-folding match of --symbol-base has several candidates)
+        if r.chance(1, 6) || (case_variants && r.chance(1, 3)) {
             let n = r.range(1, 40);
             st.get_mut("Default").unwrap().shares = n * 1000;
             symbol_base.push(format!("{}:{}:{}", sec, n, cents_str(n * r.range(500, 9000))));
@@ -455,7 +463,8 @@ pub fn generate(seed: u64, k_seeds: usize) -> Sc {
     };
     let e2e = fx.is_none() && r.chance(1, 10);
     let e2e_affiliate_spellings = e2e && r.chance(1, 2);
-    Sc { files, modes: ALL_MODES.to_vec(), symbol_base, summarize_before: sum_day.to_string(), today: d(start_year + 4, 6, 15).to_string(), hash_seeds, max_read, fx, e2e, e2e_affiliate_spellings }
+    let e2e_verbose = e2e && r.chance(1, 2);
+    Sc { files, modes: ALL_MODES.to_vec(), symbol_base, summarize_before: sum_day.to_string(), today: d(start_year + 4, 6, 15).to_string(), hash_seeds, max_read, fx, e2e, e2e_affiliate_spellings, e2e_verbose }
 }
 
 fn set_aff(row: &mut [String], a: &str, r: &mut Rng) {
@@ -663,6 +672,9 @@ pub fn run_e2e(sc: &Sc, mode: Mode, hash_seed: u64, used_out_dir: Option<&Vec<(S
         args.push(b.clone());
     }
     args.extend(mode_args(mode, &sc.summarize_before, "out"));
+    if sc.e2e_verbose {
+        args.push("--verbose".to_string());
+    }
     let today = parse_date(&sc.today);
     let now = (today - d(1970, 1, 1)).whole_days() * 86_400 + 43_200 + (hash_seed % 21_600) as i64 - 10_800;
     let o = std::process::Command::new(format!("{}/debug/acb", dir))
@@ -1074,7 +1086,10 @@ impl Engine for C09 {
                             if hi == 0 && sc.e2e_affiliate_spellings {
                                 st.bump("probe.e2e_affiliate_spelled_differently_from_row_to_row");
                             }
-                            if hi == 0 && !sc.e2e_affiliate_spellings {
+                            if hi == 0 && sc.e2e_verbose {
+                                st.bump("probe.e2e_verbose_runs");
+                            }
+                            if hi == 0 && !sc.e2e_affiliate_spellings && !sc.e2e_verbose {
                                 // fidelity: the simulated process and the real process print the same bytes
                                 let sim = run_once(sc, *mode, *hs);
                                 if sim.stdout == out.stdout && sim.files == out.files {
@@ -1187,11 +1202,17 @@ impl Engine for C09 {
             let mut s = sc.clone();
             s.e2e = false;
             s.e2e_affiliate_spellings = false;
+            s.e2e_verbose = false;
             c.push(s);
         }
         if sc.e2e_affiliate_spellings {
             let mut s = sc.clone();
             s.e2e_affiliate_spellings = false;
+            c.push(s);
+        }
+        if sc.e2e_verbose {
+            let mut s = sc.clone();
+            s.e2e_verbose = false;
             c.push(s);
         }
         // blank optional cells
@@ -1277,6 +1298,7 @@ impl Engine for C09 {
             "probe.e2e_inputs_run_by_the_real_binary",
             "probe.e2e_real_process_output_equals_simulated_process_output",
             "probe.e2e_affiliate_spelled_differently_from_row_to_row",
+            "probe.e2e_verbose_runs",
             "probe.fx_first_run_downloaded",
             "probe.fx_second_run_served_from_cache",
         ]
